@@ -55,6 +55,8 @@ struct Strategy {
     auth: AuthKind,
     /// perturbation of the correlated randomness: (level, which: 0 = A, 1 = B, delta)
     corr_delta: Option<(usize, usize, u64)>,
+    /// the client sets the B shares of every level to sum to zero (instead of a^2+b-ak+c)
+    zero_b: bool,
 }
 #[derive(Clone, Copy, Debug, PartialEq)]
 enum AuthKind {
@@ -116,7 +118,7 @@ fn craft(vdaf: &Pop, bits: usize, input: &[bool], st: &Strategy, ctx: &[u8], non
         let c = abc_inner[0][3 * l + 2] + abc_inner[1][3 * l + 2];
         let k = k_inner[l];
         let mut big_a = -(Field64::from(2) * a) + k;
-        let mut big_b = a * a + b - a * k + c;
+        let mut big_b = if st.zero_b { Field64::from(0) } else { a * a + b - a * k + c };
         if let Some((lv, which, d)) = st.corr_delta {
             if lv == l {
                 if which == 0 {
@@ -134,7 +136,7 @@ fn craft(vdaf: &Pop, bits: usize, input: &[bool], st: &Strategy, ctx: &[u8], non
     let b = abc_leaf[0][1] + abc_leaf[1][1];
     let c = abc_leaf[0][2] + abc_leaf[1][2];
     let mut big_a = -(Field255::from(2) * a) + k_leaf;
-    let mut big_b = a * a + b - a * k_leaf + c;
+    let mut big_b = if st.zero_b { Field255::from(0) } else { a * a + b - a * k_leaf + c };
     if let Some((lv, which, d)) = st.corr_delta {
         if lv == bits - 1 {
             if which == 0 {
@@ -228,23 +230,23 @@ fn main() {
         let vdaf = Pop::new(bits);
         let mut strategies: Vec<Strategy> = vec![];
         let honest_beta = vec![1i64; bits];
-        strategies.push(Strategy { name: "honest(beta=1,auth=k)".into(), beta: honest_beta.clone(), auth: AuthKind::K, corr_delta: None });
-        strategies.push(Strategy { name: "all-zero(beta=0,auth=0)".into(), beta: vec![0; bits], auth: AuthKind::KTimesBeta, corr_delta: None });
+        strategies.push(Strategy { name: "honest(beta=1,auth=k)".into(), beta: honest_beta.clone(), auth: AuthKind::K, corr_delta: None, zero_b: false });
+        strategies.push(Strategy { name: "all-zero(beta=0,auth=0)".into(), beta: vec![0; bits], auth: AuthKind::KTimesBeta, corr_delta: None, zero_b: false });
         let levels: Vec<usize> = if bits <= 3 { (0..bits).collect() } else { vec![0, bits / 2, bits - 1] };
         for &lv in &levels {
             for beta in [0i64, 2, -1, 3] {
                 for auth in [AuthKind::KTimesBeta, AuthKind::K, AuthKind::Zero, AuthKind::KPlusOne] {
                     let mut b = honest_beta.clone();
                     b[lv] = beta;
-                    strategies.push(Strategy { name: format!("beta[{lv}]={beta},auth={:?}", auth), beta: b, auth, corr_delta: None });
+                    strategies.push(Strategy { name: format!("beta[{lv}]={beta},auth={:?}", auth), beta: b, auth, corr_delta: None, zero_b: false });
                 }
             }
             for auth in [AuthKind::Zero, AuthKind::KPlusOne] {
-                strategies.push(Strategy { name: format!("beta=1,auth={:?}", auth), beta: honest_beta.clone(), auth, corr_delta: None });
+                strategies.push(Strategy { name: format!("beta=1,auth={:?}", auth), beta: honest_beta.clone(), auth, corr_delta: None, zero_b: false });
             }
             for which in 0..2 {
                 for d in [1u64, u64::MAX >> 1] {
-                    strategies.push(Strategy { name: format!("honest values, corr[{lv}].{}+={d}", ["A", "B"][which]), beta: honest_beta.clone(), auth: AuthKind::K, corr_delta: Some((lv, which, d)) });
+                    strategies.push(Strategy { name: format!("honest values, corr[{lv}].{}+={d}", ["A", "B"][which]), beta: honest_beta.clone(), auth: AuthKind::K, corr_delta: Some((lv, which, d)), zero_b: false });
                 }
             }
         }
@@ -312,9 +314,68 @@ fn main() {
                     }
                 }
             }
+            // (c) the same cheating report with STRUCTURAL alterations of the sketch messages in transit
+            // (truncation to empty / by one element, zero-filling, for every message of both rounds):
+            // if both aggregators finish, the output must still be zero / one-hot 1.
+            if si >= 2 && ti == 0 && st.corr_delta.is_none() {
+                let level = (0..bits).find(|l| st.beta[*l] != 1).unwrap_or(0);
+                let on = input[..=level].to_vec();
+                let ap = Poplar1AggregationParam::try_from_prefixes(vec![IdpfInput::from_bools(&on)]).unwrap();
+                let kinds: [(&str, usize, usize); 6] = [("verifier_share", 0, 0), ("verifier_share", 0, 1), ("verifier_message", 0, 0), ("verifier_share", 1, 0), ("verifier_share", 1, 1), ("verifier_message", 1, 0)];
+                for (k, r, a) in kinds {
+                    for how in ["empty", "drop_last_element", "zero_fill"] {
+                        let tam = |kind: &str, round: usize, agg: usize, bytes: &[u8]| -> Option<Vec<u8>> {
+                            if kind == k && round == r && (agg == a || kind == "verifier_message") {
+                                let esz = if level == bits - 1 { 32 } else { 8 };
+                                Some(match how {
+                                    "empty" => vec![],
+                                    "drop_last_element" => bytes[..bytes.len().saturating_sub(esz)].to_vec(),
+                                    _ => vec![0u8; bytes.len()],
+                                })
+                            } else {
+                                None
+                            }
+                        };
+                        run.count("evaluations", 1);
+                        run.count("structural_alterations", 1);
+                        if let Ok((_, tr)) = verify_report::<Pop, 32>(&vdaf, &vk, &ctx, &ap, &nonce, &rep.ps, &rep.shares, &VerifyOpts::tamper(&tam)) {
+                            let sum = out_sum(level == bits - 1, &tr.output_shares);
+                            if !valid_output(&sum) {
+                                run.fail(&format!("c/bits={bits}/invalid_output/{k}/{how}"), &format!("Poplar1(bits={bits}): cheating strategy '{}' on input {:?} combined with {k}[round {r}, agg {a}] {how}: both aggregators finished at level {level} with output sum {:?}", st.name, input, sum), json!({"layer": "c", "bits": bits, "input": input, "strategy": st.name, "level": level, "message": k, "round": r, "agg": a, "how": how}));
+                                return;
+                            }
+                        }
+                    }
+                }
+            }
             run.distinct(fnv(format!("a/{bits}/{si}/{ii}/{tn}").as_bytes()));
         });
         eprintln!("[{:.1}s] strategies bits={bits} ({} strategies)", run.elapsed(), strategies.len());
+    }
+
+    // ---------------- protocol-level scenario (known finding): a colluding client and network
+    // attacker. The client programs value 5 and chooses its B shares to sum to zero; the combined
+    // round-one sketch message is replaced by zeros in transit for both aggregators.
+    {
+        let bits = 3usize;
+        let vdaf = Pop::new(bits);
+        let (tn, tape) = &tapes[0];
+        let input = bits_of(0b101, bits);
+        let ctx: Vec<u8> = tape.bytes(1, 5);
+        let nonce: [u8; 16] = tape.array(2);
+        let vk: [u8; 32] = tape.array(3);
+        let st = Strategy { name: "beta=5 at every level, B shares sum to zero".into(), beta: vec![5; bits], auth: AuthKind::KTimesBeta, corr_delta: None, zero_b: true };
+        let rep = craft(&vdaf, bits, &input, &st, &ctx, &nonce, tape);
+        let level = 1usize;
+        let ap = Poplar1AggregationParam::try_from_prefixes(vec![IdpfInput::from_bools(&input[..=level])]).unwrap();
+        let tam = |kind: &str, round: usize, _agg: usize, bytes: &[u8]| -> Option<Vec<u8>> { if kind == "verifier_message" && round == 0 { Some(vec![0u8; bytes.len()]) } else { None } };
+        run.count("evaluations", 1);
+        if let Ok((_, tr)) = verify_report::<Pop, 32>(&vdaf, &vk, &ctx, &ap, &nonce, &rep.ps, &rep.shares, &VerifyOpts::tamper(&tam)) {
+            let sum = out_sum(false, &tr.output_shares);
+            if !valid_output(&sum) {
+                run.fail("protocol/zeroed_round_one_message_with_zero_B_shares", &format!("Poplar1(bits={bits}): a client that programs value 5 and sets its B shares to sum to zero, combined with the round-one sketch message zeroed in transit, is accepted by both aggregators: output sum {:?} (tape {tn})", sum), json!({"bits": bits, "input": input, "level": level}));
+            }
+        }
     }
 
     // ---------------- (b) tampering after honest sharding
